@@ -180,6 +180,15 @@ def tab4(ctx, c):
                 kw = {k.arg: k.value for k in call.keywords if k.arg}
                 if "op_code" in kw:
                     a = [x for x, _ in _mode_attrs(kw["op_code"])]
+                    if not a:
+                        # the opcode goes through a local: follow one assignment
+                        nm = [x.id for x in ast.walk(kw["op_code"]) if isinstance(x, ast.Name) and x.id not in ("NumericValue",)]
+                        for st in ast.walk(fn.node):
+                            if isinstance(st, ast.Assign) and nm and U(st.targets[0]) == nm[0]:
+                                a = [x for x, _ in _mode_attrs(st.value)]
+                    if not a:
+                        c.undecided(site + ":op_code", "opcode-source-not-recognised", U(kw["op_code"]), repo.loc(fn, call))
+                        continue
                     c.check(a == [md], site + ":op_code", "mode.%s" % md, "op_code from %s" % (a or U(kw["op_code"])),
                             "%s.translate() builds the opcode from %s instead of mode.%s" % (cls, a or U(kw["op_code"]), md), repo.loc(fn, call))
     c.floor("mode attribute reads", n, 16)
